@@ -60,3 +60,11 @@ add("C17", "exploration", [
      "shards": {"quick": 4, "thorough": 8}, "checks": {"quick": 1500, "thorough": 40000},
      "timeout": {"quick": 600, "thorough": 3000}},
 ])
+
+add("C09", "exploration", [
+    {"name": "c09-enum", "bin": "exec", "pkg": "./exec", "run": "^TestVerifC09CombiningFrameEnum$",
+     "shards": {"quick": 4, "thorough": 16}, "timeout": {"quick": 600, "thorough": 3000}},
+    {"name": "c09-random", "bin": "exec", "pkg": "./exec", "run": "^TestVerifC09CombinerRandom$",
+     "shards": {"quick": 8, "thorough": 16}, "checks": {"quick": 400, "thorough": 12000},
+     "timeout": {"quick": 600, "thorough": 3000}},
+])
